@@ -651,6 +651,18 @@ func c17Round3(c *Ctx) {
 	c.Rule("R17p", "reproducing the original directory does not change the Directory it is asked about", 1)
 
 	c.Rule("R17q", "the directory offset Truncate records does not depend on whether a body writer was given", 1)
+	c.Rule("R17s", "a ReadAt method fills the buffer or returns an error (module-wide)", 1)
+	for _, f := range readAtFills(p) {
+		c.Check(f.OK, "R17s", f.Key, f.Pos, "", f.Detail)
+	}
+	c.Rule("R17t", "in lib/zipslicer nothing is appended to a field that is a view into the directory buffer", 1)
+	for _, f := range viewsNotAppendedTo(p, "lib/zipslicer") {
+		c.Check(f.OK, "R17t", f.Key, f.Pos, f.Detail, f.Detail)
+	}
+	c.Rule("R17u", "two narrow length fields are widened before they are added (module-wide)", 1)
+	for _, f := range sumsWidenedFirst(p) {
+		c.Check(f.OK, "R17u", f.Key, f.Pos, f.Detail, f.Detail)
+	}
 	for _, f := range truncateOffsetIndependent(p) {
 		c.Check(f.OK, "R17q", f.Key, f.Pos, "", f.Detail)
 	}
